@@ -41,7 +41,10 @@ type BlobObs struct {
 	Statuses     []int  `json:"statuses"`
 	MetaInfo     []byte `json:"metainfo,omitempty"` // body of the final 200
 	LastBody     string `json:"last_body,omitempty"`
-	StillPending bool   `json:"still_pending,omitempty"` // watchdog: still 202
+	StillPending bool   `json:"still_pending,omitempty"` // watchdog: a refresh never completed
+	// the endpoint still answered 202 after 3 refreshes of the digest had completed
+	Still202AfterRefreshes bool `json:"still_202_after_refreshes,omitempty"`
+	RefreshDownloads       int  `json:"refresh_downloads"` // downloads of the blob the backend served
 	// persist flag
 	PersistState string `json:"persist_state"` // absent | true | false | error
 	PersistErr   string `json:"persist_err,omitempty"`
